@@ -164,6 +164,8 @@ def execute(program, solve=True, oracle=True, horizon=None, stop_before_main=Fal
                 sec(st['sector']).AddMarket(sec(st['market']))
             elif op == 'AssetWeighting':
                 w = [(c, subst(e, idx)) for c, e in st['weights']]
+                if st.get('as') == 'dict':
+                    w = dict(w)
                 sec(st['sector']).GenerateAssetWeighting(w, st['residual'])
             elif op == 'RegisterCashFlow':
                 model.RegisterCashFlow(sec(st['src']), sec(st['dst']), st['var'],
@@ -182,6 +184,8 @@ def execute(program, solve=True, oracle=True, horizon=None, stop_before_main=Fal
                 b.has_ic = True
                 if st.get('via', 'sector') == 'sector':
                     sec(st['sector']).AddInitialCondition(st['var'], st['value'])
+                elif st['via'] == 'model_id':
+                    model.AddInitialCondition(sec(st['sector']).ID, st['var'], st['value'])
                 else:
                     model.AddInitialCondition(st['fullcode'], st['var'], st['value'])
             elif op == 'Global':
